@@ -1,0 +1,14 @@
+//go:build verif
+
+// Assumed contract of generated protobuf code (property C11). Comment-only.
+
+package pubsub_pb
+
+// Size of the wire encoding: never negative, and positive as soon as one of the optional
+// message-typed fields is present (each contributes at least its tag and length bytes).
+// Generated code; trusted, not verified.
+//@ func (*RPC).Size
+//@   trusted generated protobuf size function: non-negative, positive when a message-typed field is present
+//@   modifies nothing
+//@   ensures nonneg: result >= 0
+//@   ensures present-fields-count: m != nil && (m.Control != nil || m.Partial != nil || m.TestExtension != nil) ==> result > 0
